@@ -125,6 +125,9 @@ PLANS["C01"] = {
 }
 
 PLANS["C15"] = {
+    "hang_is_violation": "every drive mode runs under the same instruction limit (at most 40000) and single-stepping is bounded by the monitor's own "
+                         "step counter, so a drive mode that is still executing after 40 CPU-seconds did not honour the budget the "
+                         "other modes honoured: the drive modes disagree",
     "jobs": {
         "quick": [("", "release", 40000), ("", "dev", 6000)],
         "thorough": [("", "release", 1600000), ("", "dev", 160000)],
@@ -133,10 +136,11 @@ PLANS["C15"] = {
             "word-soup program over the whole dictionary with binary input set) driven six ways from identical fresh interpreters: "
             "{eval, compile+run, compile+step*} x {recording off, on}; the six observations (result or error, visible stack, every "
             "variable, captured stdout) must be identical. distinct = distinct programs after literals are abstracted away",
-    "assumptions": ["programs that hit the 40000-instruction budget in any drive mode are skipped and counted (the budget is part of "
-                    "the configuration, not of the property)"],
+    "assumptions": ["every run has an instruction budget (40000, 3000, 257 or 52 by case index); a program stopped by it must be "
+                    "stopped at the same point in every drive mode and is compared like any other failing program"],
     "require": [need("programs_ok", 10000), need("programs_failing", 1000), need_set("reverse_step_variants", 14), need_set("opcodes", 18),
-                need_set("features", 30), need_set("error_kinds_compared", 8)],
+                need_set("features", 30), need_set("error_kinds_compared", 8),
+                need("programs_stopped_by_insn_limit_compared", 1000)],
 }
 
 G2_RULE = ("a G2 program is a typed word soup over the whole dictionary (collections, tags, bit-string reads and packers that move the "
@@ -160,4 +164,26 @@ PLANS["C02"] = {
                     "sources that fail to build are skipped and counted"],
     "require": [need("moves_checked", 2000000), need_set("reverse_step_variants", 15), need_set("opcodes", 18), need_set("insn_and_log", 120),
                 need("histories_ending_in_failed_step", 1000), need("rnext_at_start_is_noop", 10000), need_set("features", 30)],
+}
+
+PLANS["C03"] = {
+    "jobs": {
+        "quick": [("", "release", 14000), ("", "dev", 1600), ("d2", "release", 640), ("capi", "release", 3200)],
+        "thorough": [("", "release", 600000), ("", "dev", 48000), ("d2", "release", 16000), ("capi", "release", 160000)],
+    },
+    "rule": "a case is a clone-tree history: 8..48 steps over up to 8 live interpreter copies, each step an operation on one copy "
+            "(eval / compile+run / compile+step+reverse-step+run of a sharing-then-mutating source or a G2 snippet; set_binary_input; "
+            "recording on/off), a clone of a copy (clone of clone up to depth 8, plus a pristine snapshot) or the drop of a copy. After "
+            "every step the full rendering (machine state, bookkeeping, dictionary, code, reverse log, bit-strings bit by bit; canvas in "
+            "mode d2) of every copy and snapshot that was not operated on must be unchanged; at the end the operations each original "
+            "executed after a clone point are replayed on the snapshot taken there (first on a clone of it with all copies alive, then, "
+            "after all copies are dropped, on the snapshot itself) and every observation and the final state must be identical. Mode "
+            "capi drives xeh_open/xeh_snapshot/xeh_push/xeh_pop/xeh_close. distinct = distinct histories with >= 1 clone point and >= 8 steps",
+    "assumptions": ["sources exclude random, random-bits, read-all, write-all, exec-piped, include/require, as the statement does",
+                    "mode d2 loads the canvas plugin the REPL loads; its shared host object is a known finding (see known_findings.json) "
+                    "and is exercised by its own shard so that the general workload stays free of it"],
+    "require": [need("clone_points", 20000), need("immutability_checks", 1000000), need("replayed_ops", 100000),
+                need("ops_on_copy_with_shared_bitstr_buffer", 50000), need("final_states_compared", 10000),
+                need("stmt:resolve-late", 1000), need("stmt:stack-only-slice-then-mutate", 1000), need("stmt:mutate-top-of-stack", 1000),
+                need("op:step", 10000), need("capi_snapshots", 1000), need("copies_dropped", 5000)],
 }
